@@ -158,6 +158,18 @@ class ExprGen:
             return {k: self.value(rng.choice(TYPES if d > 1 else ['int', 'bool', 'str']), d - 1) for k in keys}
         raise ValueError(typ)
 
+    EMPTY = {'int': 0, 'bool': False, 'str': '', 'array': [], 'dict': {}}
+
+    def fallback(self, typ: str) -> str:
+        """Literal for a fallback argument (array.get, dict.get, get_variable, subproject.get_variable): often the
+        "empty" value of the type -- 0, false, '', [], {} -- which an implementation must not confuse with
+        "no fallback given"."""
+        if typ == 'any':
+            typ = self.rng.choice(TYPES)
+        if self.rng.random() < 0.45:
+            return lit(self.rng, self.EMPTY[typ])
+        return lit(self.rng, self.value(typ, 1))
+
     def literal(self, typ: str) -> E:
         rng = self.rng
         if typ == 'int' and rng.random() < 0.15:
@@ -222,18 +234,18 @@ class ExprGen:
                         idx = i if rng.random() < 0.6 else i - len(v)
                         cands.append(f'{name}[{idx}]')
                         cands.append(f'{name}.get({idx})')
-                        cands.append(f'{name}.get({idx}, {lit(rng, self.value(typ, 1))})')
+                        cands.append(f'{name}.get({idx}, {self.fallback(typ)})')
             elif type(v) is dict:
                 for k, x in v.items():
                     if R.tname(x) == typ:
                         cands.append(f'{name}[{lit(rng, k)}]')
                         cands.append(f'{name}.get({lit(rng, k)})')
-                        cands.append(f'{name}.get({lit(rng, k)}, {lit(rng, self.value(typ, 1))})')
+                        cands.append(f'{name}.get({lit(rng, k)}, {self.fallback(typ)})')
         if rng.random() < 0.3:
             # fallback paths: index out of range / missing key with a fallback value
             arrs = self.vars_of('array')
             dicts = self.vars_of('dict')
-            fb = lit(rng, self.value(typ, 1))
+            fb = self.fallback(typ)
             if arrs:
                 a = rng.choice(arrs)
                 cands.append(f'{a}.get({len(self.env[a]) + rng.randint(0, 3)}, {fb})')
@@ -249,7 +261,7 @@ class ExprGen:
         if names and self.rng.random() < 0.5:
             return E(f"get_variable('{self.rng.choice(names)}')", 9)
         if self.rng.random() < 0.5:
-            return E(f"get_variable('no_such_var', {lit(self.rng, self.value(typ, 1))})", 9)
+            return E(f"get_variable('no_such_var', {self.fallback(typ)})", 9)
         return None
 
     def common(self, typ: str, d: int) -> T.Optional[E]:
@@ -878,7 +890,8 @@ class ProgramGen:
         e = self.eg().expr('any').s
         spelled = f"'{name}'" if rng.random() < 0.6 else f"'{name[:1]}' + '{name[1:]}'"
         s = f"set_variable({spelled}, {e})\n" + self.observe(name)
-        s += f"message(is_variable('{name}'), get_variable('{name}', 'fallback'), get_variable('un' + 'set_{name}', [0]))\n"
+        s += (f"message(is_variable('{name}'), get_variable('{name}', {self.eg().fallback('any')}), "
+              f"get_variable('un' + 'set_{name}', {self.eg().fallback('any')}))\n")
         if rng.random() < 0.6:
             s += f"unset_variable('{name}')\nmessage(is_variable('{name}'), get_variable('{name}', 'gone'))\n"
             if rng.random() < 0.5:
@@ -1001,6 +1014,61 @@ class ProgramGen:
         stmt = f"{name} = f{quote}{body}{quote}{tail}\n"
         return pre + stmt + self.observe(name), {}
 
+    def chunk_reiterate(self) -> T.Tuple[str, T.Dict[str, str]]:
+        """An iterable VALUE (array, dict or the object returned by range()) is stored, reaches other names through
+        assignment / set_variable / get_variable, and is then walked several times: twice in a row, nested in itself
+        (also through the other name), again after a loop that was left with break, with indexing in between.  A
+        value has no iteration state: every foreach starts at the first element."""
+        rng = self.rng
+        kind = rng.choice(['range', 'range', 'array', 'dict'])
+        r = self.fresh('itv')
+        if kind == 'range':
+            lo = rng.randint(0, 3)
+            src = rng.choice([f'range({rng.randint(1, 5)})', f'range({lo}, {lo + rng.randint(1, 6)})',
+                              f'range({lo}, {lo + rng.randint(2, 9)}, {rng.randint(1, 3)})'])
+        elif kind == 'array':
+            src = lit(rng, [self.eg().value(rng.choice(['int', 'str', 'bool']), 1) for _ in range(rng.randint(2, 4))])
+        else:
+            src = lit(rng, {k: self.eg().value(rng.choice(['int', 'str']), 1) for k in rng.sample(KEYS, rng.randint(2, 3))})
+        first = rng.choice([f'{r} = {src}', f"set_variable('{r}', {src})"])
+        other = self.fresh('itw')
+        alias = rng.choice([f'{other} = {r}', f"{other} = get_variable('{r}')", f"set_variable('{other}', {r})",
+                            f'{other} = true ? {r} : {r}', f'{other} = [{r}][0]'])
+        lines = [first, alias]
+        two = kind == 'dict'
+        accs: T.List[str] = []
+
+        def head(v: str, it: str) -> str:
+            return f'foreach k{v}, {v} : {it}' if two else f'foreach {v} : {it}'
+
+        def item(v: str) -> str:
+            return f'[k{v}, {v}]' if two else v
+        for _ in range(rng.randint(2, 4)):
+            acc = self.fresh('acc')
+            accs.append(acc)
+            lines.append(f'{acc} = []')
+            a, b = rng.choice([r, other]), rng.choice([r, other])
+            x, y = self.fresh('x'), self.fresh('y')
+            form = rng.choice(['plain', 'plain', 'break', 'continue', 'nested', 'nested-break', 'index'])
+            if form == 'plain':
+                lines += [head(x, a), f'  {acc} += [{item(x)}]', 'endforeach']
+            elif form == 'break':
+                lines += [head(x, a), f'  if {acc}.length() >= {rng.randint(0, 2)}', '    break', '  endif', f'  {acc} += [{item(x)}]', 'endforeach']
+            elif form == 'continue':
+                lines += [head(x, a), f'  if {acc}.length().is_odd()', f'    {acc} += [0]', '    continue', '  endif', f'  {acc} += [{item(x)}]', 'endforeach']
+            elif form == 'nested':
+                lines += [head(x, a), '  ' + head(y, b), f'    {acc} += [[{item(x)}, {item(y)}]]', '  endforeach', 'endforeach']
+            elif form == 'nested-break':
+                lines += [head(x, a), '  ' + head(y, b), f'    if {acc}.length().is_odd()', '      break', '    endif',
+                          f'    {acc} += [[{item(x)}, {item(y)}]]', '  endforeach', f'  {acc} += [{item(x)}]', 'endforeach']
+            elif kind == 'dict':
+                lines += [f'{acc} += [{a}.keys(), {b}.values()]']
+            else:
+                lines += [f'{acc} += [{a}[0], {b}[-1]]']
+        text = '\n'.join(lines) + '\n'
+        text += 'message(' + ', '.join(f"'{a}', {a}" for a in accs) + ')\n' + ''.join(f'##ASSERT {a}\n' for a in accs)
+        return text, {}
+
     def chunk_message(self) -> T.Tuple[str, T.Dict[str, str]]:
         eg = self.eg()
         args = [eg.expr('any', 2).s for _ in range(self.rng.randint(1, 4))]
@@ -1078,11 +1146,27 @@ class ProgramGen:
                     sub.env = dict(o.variables)
                     text += t.replace("message('", f"message('{sp}.")
                     break
+        # variables holding the "empty" value of each type: present, so a fallback must be ignored for them
+        eg = self.eg({})
+        for typ in rng.sample(TYPES, rng.randint(1, 3)):
+            nm = sub.fresh('e')
+            text += f'{nm} = {lit(rng, ExprGen.EMPTY[typ])}\n'
+            sub.env[nm] = ExprGen.EMPTY[typ]
         names = list(sub.env)
+        rng.shuffle(names)
         s = f"{sp}_obj = subproject('{sp}')\n"
-        for nm in names[:3]:
+        for nm in names[:4]:
             tmp = self.fresh('fromsp')
-            s += f"{tmp} = {sp}_obj.get_variable('{nm}')\n" + self.observe(tmp)
+            how = rng.random()
+            if how < 0.5:
+                s += f"{tmp} = {sp}_obj.get_variable('{nm}')\n" + self.observe(tmp)
+            else:
+                s += f"{tmp} = {sp}_obj.get_variable('{nm}', {eg.fallback('any')})\n" + self.observe(tmp)
+        # missing variables: the fallback -- of any type, empty or not, literal or expression -- is the value
+        for _ in range(rng.randint(2, 4)):
+            tmp = self.fresh('fbsp')
+            fb = eg.fallback('any') if rng.random() < 0.8 else self.eg().expr('any', 1).s
+            s += f"{tmp} = {sp}_obj.get_variable('no_such_{tmp}', {fb})\n" + self.observe(tmp)
         s += f"message({sp}_obj.get_variable('no_such', 'fallback'), {sp}_obj.found())\n"
         # a subproject variable name is not a variable of the parent
         hidden = [n for n in names if n not in self.env]
@@ -1090,7 +1174,7 @@ class ProgramGen:
             s += f"message('hidden', is_variable('{hidden[0]}'))\n"
         return s, {f'subprojects/{sp}/meson.build': text}
 
-    CHUNKS = [('assign', 30), ('plusassign', 8), ('alias', 6), ('torture', 7), ('nearmiss', 7), ('placeholders', 7), ('if', 8), ('foreach', 10), ('variables', 5),
+    CHUNKS = [('assign', 30), ('plusassign', 8), ('alias', 6), ('torture', 7), ('nearmiss', 7), ('placeholders', 7), ('reiterate', 7), ('if', 8), ('foreach', 10), ('variables', 5),
               ('message', 5), ('shortcircuit', 4), ('exprstmt', 2)]
     COMMENTS = ["# plain comment", "# it's \"quoted\" \\ @x@ '''", "", "\t# indented", "#", "# endif foreach x : y"]
 
